@@ -3,8 +3,10 @@
 EXTENDS Integers, Sequences, TLC, Json, IOUtils
 VARIABLES hist, done
 GenDepth == IF "GEN_DEPTH" \in DOMAIN IOEnv THEN atoi(IOEnv.GEN_DEPTH) ELSE 24
-Ops == <<"create", "get", "get", "list", "listlabel", "listid", "strip", "update", "modify", "mdcopy", "mutate", "mutate", "mutate", "mutate", "watchget">>
-Fields == <<"labelSet", "labelDelete", "labelDo", "annotationSet", "annotationDelete", "finAdd", "finRemove", "finSet",
+Ops == <<"create", "get", "get", "list", "listlabel", "listid", "strip", "update", "modify", "mdcopy", "mutate", "mutate", "mutate", "mutate", "watchget", "twinadd", "twinremadd">>
+(* finAdd is listed three times: two holders of one lineage both adding a finalizer is the case that tells copy-on-write from *)
+(* append-in-place                                                                                                          *)
+Fields == <<"labelSet", "labelDelete", "labelDo", "annotationSet", "annotationDelete", "finAdd", "finAdd", "finAdd", "finRemove", "finSet",
             "phase", "version", "owner", "spec">>
 Init == hist = <<>> /\ done = FALSE
 Step == \E op \in {Ops[RandomElement(1..Len(Ops))]}, h \in {RandomElement(1..4)}, g \in {RandomElement(1..4)},
